@@ -395,8 +395,10 @@ def run(ctx):
         ctx.anchor_missing(RULE, 'core functions with side conditions (left/right symmetry)', PROPS, n_sym, 12)
     if n_sib < 20:
         ctx.anchor_missing(RULE, 'functions of the structural core present in at least two copies', PROPS, n_sib, 20)
-    if n_pairs < 7:
-        ctx.anchor_missing(RULE, 'mirror-image function pairs', PROPS, n_pairs, 7)
+    # merging mirrored functions into one side-parametrised function is a legitimate rewrite (the merged function is then
+    # held to the left/right symmetry of its guarded effects): only a collapse of the count is treated as a lost anchor
+    if n_pairs < 2 and n_sym < 16:
+        ctx.anchor_missing(RULE, 'mirror-image function pairs', PROPS, n_pairs, 2)
     for t in trees:
         if n_chains.get(t, 0) < 4:
             ctx.anchor_missing(RULE, 'mirrored branch chains in %s' % t, PROPS, n_chains.get(t, 0), 4)
